@@ -21,7 +21,7 @@ RULE = ('events: cd {new sub-directory, .., -rel-tmp, -rel-act}; env X = v | "${
 ASSUMPTIONS = [
     'probe processes are virtual children: they record the cwd, environment (projected on X, Y, Z) and timeout they are started with',
     'Y=y0 is set in the environment exactly is started with, X is not set',
-    'a child changing its own directory needs a real process: see the real-process slice (C10/C19)',
+    'a child changing its own directory is explored with real processes (compiled probe) in a 12-case slice',
 ]
 
 PHASES = ('setup', 'before-assert', 'assert', 'cleanup')
@@ -128,8 +128,16 @@ def prepare(tier):
     procseam.install()
 
 
+VERIF = os.path.dirname(os.path.dirname(os.path.abspath(__file__)))
+PROBE = os.path.join(VERIF, 'build', 'probe')
+
+
 def cases(tier):
     yield ()
+    if os.path.exists(PROBE):
+        for phase in PHASES:
+            for target in ('/', '..', 'sub'):
+                yield ('real-chdir', phase, target)
     for h in bfs(4 if tier == 'quick' else 6):
         yield h
 
@@ -179,7 +187,56 @@ def _snap(st, which):
     return {'cwd': st['cwd'], 'env': {k: e[k] for k in ('X', 'Y') if k in e}, 'timeout': st['timeout']}
 
 
+def run_real_chdir(case) -> Result:
+    """A REAL child that changes its own directory does not change the test's current directory (real processes, compiled probe)."""
+    import json
+    _, phase, target = case
+    res = Result()
+    res.n = 1
+    res.nontrivial += 1
+    w = world.get()
+    w.reset()
+    seam = procseam.SEAM
+    seam.reset()
+    seam.real = True
+    d1, d2, d3 = str(w.ext / 'd1.json'), str(w.ext / 'd2.json'), str(w.ext / 'd3.json')
+    blocks = {p: [] for p in PHASES}
+    blocks['setup'] += ['dir sub']
+    blocks[phase] += ['run %% %s --chdir %s' % (PROBE, target), 'run %% %s --dump %s' % (PROBE, d1)]
+    later = PHASES[min(PHASES.index(phase) + 1, len(PHASES) - 1)]
+    blocks[later] += ['$ cd / ; true', 'run %% %s --dump %s' % (PROBE, d2)]
+    text = '[setup]\n' + '\n'.join(blocks['setup']) + '\n[act]\n%% %s --chdir %s --dump %s\n' % (PROBE, target, d3)
+    for p in PHASES[1:]:
+        text += '[%s]\n' % p + '\n'.join(blocks[p]) + '\n'
+    o = cli.run_case(text)
+    errs = []
+    if o.ident != 'PASS':
+        errs.append('outcome %s / %s' % (o.ident, ' / '.join(cli.stderr_lines(o.err)[:5])))
+    cwds = []
+    for f in (d1, d2, d3):
+        try:
+            with open(f) as fh:
+                cwds.append(json.load(fh)['cwd'])
+        except Exception as ex:  # noqa
+            cwds.append('no dump: %s' % ex)
+    if not all(c.endswith('/act') for c in cwds):
+        errs.append('after a child changed ITS directory to %s in [%s], later processes start in %s (expected <sds>/act)' % (target, phase, cwds))
+    diff = w.process_state_diff()
+    if diff:
+        errs.append('process state of the caller changed: %s' % diff[:2])
+    res.outcomes[('real-chdir', o.ident)] += 1
+    res.stats['real-process cases'] += 1
+    res.states.add(('real-chdir', phase))
+    if errs:
+        res.violation(case, errs, {'file': text})
+    else:
+        res.validated += 1
+    return res
+
+
 def run(case) -> Result:
+    if case and case[0] == 'real-chdir':
+        return run_real_chdir(case)
     hist = tuple(case)
     res = Result()
     res.n = 1
